@@ -126,6 +126,18 @@ Theorem C20_rules_target_bound_definitions :
 Proof. exact rules_target_bound_definitions. Qed.
 Print Assumptions C20_rules_target_bound_definitions.
 
+(* the regular expressions the hand-written snake_case model stands for are the ones in utils.py *)
+Theorem C20_naming_regexes :
+  re_camel_b1 = "(.)([A-Z][a-z]+)" /\ re_camel_b2 = "([a-z0-9])([A-Z])" /\
+  re_alpha_to_digit = "([A-Za-z])([0-9])" /\ re_digit_to_alpha = "([0-9])([A-Za-z])" /\
+  re_multi_us = "__+" /\ re_upper_or_digits = "^[A-Z0-9]+$" /\
+  re_mixed_case = "[A-Z].*[a-z]|[a-z].*[A-Z]" /\ re_leading_us = "^_+" /\
+  re_trailing_us = "_+$" /\
+  snakecase_regex_names = ["re_alpha_to_digit"; "re_camel_b1"; "re_camel_b2"; "re_digit_to_alpha"; "re_leading_us";
+                           "re_mixed_case"; "re_multi_us"; "re_trailing_us"; "re_upper_or_digits"].
+Proof. exact naming_regexes_pinned. Qed.
+Print Assumptions C20_naming_regexes.
+
 (* ---- non-vacuity -------------------------------------------------------------------- *)
 Definition ex_clean : list ldef :=
   [ mkL KConstant "MAX_SIZE_2" 3 0 1 []; mkL KAlias "Timestamp64" 4 0 1 [];
